@@ -40,6 +40,11 @@ def inputs(ctx):
     cs += rng.sample(grid, 250) if ctx.quick else grid
     cs += [curves.random_curve(rng, 3, 50 if ctx.quick else 150) for _ in range(250 if ctx.quick else 2500)]
     cs += curves.trace_windows(rng, 6 if ctx.quick else 60, 20, 100, names=("web0_reduced.csv", "usr0.csv", "web2.csv"))
+    for _ in range(60 if ctx.quick else 500):          # spiky, steep, non-monotone curves
+        n = rng.randint(6, 30)
+        x = np.cumsum([rng.choice([1, 1, 2, 7]) for _ in range(n)]).astype(float)
+        y = np.array([rng.choice([0.5, 1.0, 40.0, 90.0, 200.0]) * rng.random() + 1.0 for _ in range(n)])
+        cs.append(curves.mk(x, y))
     # long curves (fast paths / chunking that only start at some size must not change the partition)
     big = []
     for n in ([600, 1500] if ctx.quick else [600, 900, 1500, 2500, 5000]):
